@@ -724,3 +724,368 @@ LOCAL = {
     ("Reference", "Clone", "clone"): lm_reference_clone,
     ("Reference", "", "from_rc_ref_cell"): lm_reference_from_rc,
 }
+
+
+# --------------------------------------------------------------------------------------------- closures and Option/Result combinators
+
+def call_closure(sim, st, c, clo, args, post=None):
+    clo = sim.resolve(st, clo)
+    if not (isinstance(clo, Opaque) and clo.kind == "Closure"):
+        raise S.Unsupported("call of non-closure callable %r" % (clo,))
+    fn = sim.prog.fns.get(clo.data[0])
+    if fn is None or "body" not in fn:
+        raise S.Unsupported("closure body missing")
+    body = fn["body"]
+    gargs = clo.data[2].g if len(clo.data) > 2 else []
+    n = len(fn["generics"])
+    gargs = list(gargs) + [{"k": "param", "name": fn["generics"][i]["name"], "idx": i} for i in range(len(gargs), n)]
+    sty = body["locals"][1]["ty"]
+    if sty.get("k") == "ref":
+        oid = st.new_obj("closure", clo)
+        a0 = Ref(Ptr(oid), sty.get("mut", False))
+    else:
+        a0 = clo
+    sim.push_frame(st, fn, body, gargs, [a0] + list(args), c["dest"], c["ret_bb"], tag=post)
+    return NotImplemented
+
+
+def post_wrap(sim, st, ret, extra):
+    ty, vname = extra
+    return sim.mk_enum(ty, vname, [ret])
+
+
+POST["wrap"] = post_wrap
+
+
+@model("std::option::Option::<T>::map")
+def m_opt_map(sim, st, c):
+    v = sim.force_variant(st, c["args"][0])
+    if v.vname == "None":
+        return sim.mk_enum(c["ret_ty"], "None")
+    return call_closure(sim, st, c, c["args"][1], [v.fields[0]], post=("post", "wrap", (c["ret_ty"], "Some")))
+
+
+@model("std::option::Option::<T>::map_or")
+def m_opt_map_or(sim, st, c):
+    v = sim.force_variant(st, c["args"][0])
+    if v.vname == "None":
+        return c["args"][1]
+    return call_closure(sim, st, c, c["args"][2], [v.fields[0]])
+
+
+@model("std::option::Option::<T>::map_or_else")
+def m_opt_map_or_else(sim, st, c):
+    v = sim.force_variant(st, c["args"][0])
+    if v.vname == "None":
+        return call_closure(sim, st, c, c["args"][1], [])
+    return call_closure(sim, st, c, c["args"][2], [v.fields[0]])
+
+
+@model("std::option::Option::<T>::and_then")
+def m_opt_and_then(sim, st, c):
+    v = sim.force_variant(st, c["args"][0])
+    if v.vname == "None":
+        return sim.mk_enum(c["ret_ty"], "None")
+    return call_closure(sim, st, c, c["args"][1], [v.fields[0]])
+
+
+@model("std::option::Option::<T>::is_some_and")
+def m_opt_is_some_and(sim, st, c):
+    v = sim.force_variant(st, c["args"][0])
+    if v.vname == "None":
+        return Const(False, prim("bool"))
+    return call_closure(sim, st, c, c["args"][1], [v.fields[0]])
+
+
+@model("std::option::Option::<T>::is_none_or")
+def m_opt_is_none_or(sim, st, c):
+    v = sim.force_variant(st, c["args"][0])
+    if v.vname == "None":
+        return Const(True, prim("bool"))
+    return call_closure(sim, st, c, c["args"][1], [v.fields[0]])
+
+
+@model("std::option::Option::<T>::unwrap_or")
+def m_opt_unwrap_or(sim, st, c):
+    v = sim.force_variant(st, c["args"][0])
+    return c["args"][1] if v.vname == "None" else v.fields[0]
+
+
+@model("std::option::Option::<T>::unwrap_or_else")
+def m_opt_unwrap_or_else(sim, st, c):
+    v = sim.force_variant(st, c["args"][0])
+    if v.vname == "None":
+        return call_closure(sim, st, c, c["args"][1], [])
+    return v.fields[0]
+
+
+@model("std::option::Option::<T>::or")
+def m_opt_or(sim, st, c):
+    v = sim.force_variant(st, c["args"][0])
+    return c["args"][1] if v.vname == "None" else v
+
+
+@model("std::option::Option::<T>::is_some", "std::option::Option::<T>::is_none")
+def m_opt_is(sim, st, c):
+    v = sim.force_variant(st, deref_arg(sim, st, c["args"][0]))
+    return Const((v.vname == "Some") == c["fn"]["name"].endswith("is_some"), prim("bool"))
+
+
+@model("std::result::Result::<T, E>::is_ok", "std::result::Result::<T, E>::is_err")
+def m_res_is(sim, st, c):
+    v = sim.force_variant(st, deref_arg(sim, st, c["args"][0]))
+    return Const((v.vname == "Ok") == c["fn"]["name"].endswith("is_ok"), prim("bool"))
+
+
+@model("std::option::Option::<T>::as_ref", "std::option::Option::<T>::as_mut")
+def m_opt_as_ref(sim, st, c):
+    p = sim.deref_value(st, c["args"][0])
+    v = sim.force_variant(st, sim.read(st, p))
+    if v.vname == "None":
+        return sim.mk_enum(c["ret_ty"], "None")
+    return sim.mk_enum(c["ret_ty"], "Some", [Ref(p.ext(("d", v.variant), ("f", 0)), c["fn"]["name"] == "as_mut")])
+
+
+@model("std::option::Option::<T>::take")
+def m_opt_take(sim, st, c):
+    p = sim.deref_value(st, c["args"][0])
+    v = sim.read(st, p)
+    ty = getattr(v, "ty", None) or c["ret_ty"]
+    sim.write(st, p, sim.mk_enum(c["ret_ty"], "None"))
+    return v
+
+
+@model("std::option::Option::<T>::replace")
+def m_opt_replace(sim, st, c):
+    p = sim.deref_value(st, c["args"][0])
+    v = sim.read(st, p)
+    sim.write(st, p, sim.mk_enum(c["ret_ty"], "Some", [c["args"][1]]))
+    return v
+
+
+@model("std::option::Option::<&T>::copied", "std::option::Option::<&T>::cloned", "std::option::Option::<&mut T>::copied")
+def m_opt_copied(sim, st, c):
+    v = sim.force_variant(st, c["args"][0])
+    if v.vname == "None":
+        return sim.mk_enum(c["ret_ty"], "None")
+    return sim.mk_enum(c["ret_ty"], "Some", [deref_arg(sim, st, v.fields[0])])
+
+
+@model("std::option::Option::<T>::ok_or")
+def m_opt_ok_or(sim, st, c):
+    v = sim.force_variant(st, c["args"][0])
+    if v.vname == "None":
+        return sim.mk_enum(c["ret_ty"], "Err", [c["args"][1]])
+    return sim.mk_enum(c["ret_ty"], "Ok", [v.fields[0]])
+
+
+@model("std::result::Result::<T, E>::ok")
+def m_res_ok(sim, st, c):
+    v = sim.force_variant(st, c["args"][0])
+    return sim.mk_enum(c["ret_ty"], "Some", [v.fields[0]]) if v.vname == "Ok" else sim.mk_enum(c["ret_ty"], "None")
+
+
+@model("std::result::Result::<T, E>::map")
+def m_res_map(sim, st, c):
+    v = sim.force_variant(st, c["args"][0])
+    if v.vname == "Err":
+        return sim.mk_enum(c["ret_ty"], "Err", [v.fields[0]])
+    return call_closure(sim, st, c, c["args"][1], [v.fields[0]], post=("post", "wrap", (c["ret_ty"], "Ok")))
+
+
+@model("std::result::Result::<T, E>::map_err")
+def m_res_map_err(sim, st, c):
+    v = sim.force_variant(st, c["args"][0])
+    if v.vname == "Ok":
+        return sim.mk_enum(c["ret_ty"], "Ok", [v.fields[0]])
+    return call_closure(sim, st, c, c["args"][1], [v.fields[0]], post=("post", "wrap", (c["ret_ty"], "Err")))
+
+
+@model("std::result::Result::<T, E>::and_then")
+def m_res_and_then(sim, st, c):
+    v = sim.force_variant(st, c["args"][0])
+    if v.vname == "Err":
+        return sim.mk_enum(c["ret_ty"], "Err", [v.fields[0]])
+    return call_closure(sim, st, c, c["args"][1], [v.fields[0]])
+
+
+@model("std::result::Result::<T, E>::unwrap_or")
+def m_res_unwrap_or(sim, st, c):
+    v = sim.force_variant(st, c["args"][0])
+    return c["args"][1] if v.vname == "Err" else v.fields[0]
+
+
+@model("std::mem::replace")
+def m_mem_replace(sim, st, c):
+    p = sim.deref_value(st, c["args"][0])
+    v = sim.read(st, p)
+    sim.write(st, p, c["args"][1])
+    return v
+
+
+@model("std::mem::swap")
+def m_mem_swap(sim, st, c):
+    p, q = sim.deref_value(st, c["args"][0]), sim.deref_value(st, c["args"][1])
+    a, b = sim.read(st, p), sim.read(st, q)
+    sim.write(st, p, b)
+    sim.write(st, q, a)
+    return UNIT
+
+
+def ord_key(sim, st, v, ty):
+    v = sim.resolve(st, v)
+    if S.is_int_ty(ty):
+        return v
+    if single_int_field_struct(sim, ty) and sim.prog.is_derived_impl("Ord", ty["name"]):
+        return sim.resolve(st, sim.expand(st, v).fields[0])
+    raise S.Unsupported("max/min on " + ty_str(ty))
+
+
+@model("std::cmp::max", "std::cmp::Ord::max")
+def m_max(sim, st, c):
+    a, b = c["args"][0], c["args"][1]
+    ty = c["ret_ty"]
+    if sim.int_sign(st, int_sub(ord_key(sim, st, a, ty), ord_key(sim, st, b, ty)), {">"}):
+        return a
+    return b
+
+
+@model("std::cmp::min", "std::cmp::Ord::min")
+def m_min(sim, st, c):
+    a, b = c["args"][0], c["args"][1]
+    ty = c["ret_ty"]
+    if sim.int_sign(st, int_sub(ord_key(sim, st, a, ty), ord_key(sim, st, b, ty)), {">"}):
+        return b
+    return a
+
+
+# --------------------------------------------------------------------------------------------- Vec / VecDeque as concrete-length lists
+
+def mk_list(elems, ty=None):
+    return Opaque("List", (tuple(elems),), ty)
+
+
+def list_at(sim, st, p):
+    v = sim.read(st, p)
+    if isinstance(v, Opaque) and v.kind == "List":
+        return v
+    raise S.Unsupported("list operation on %r (symbolic-length collection)" % (v,))
+
+
+@pattern(r"^std::(collections::VecDeque|vec::Vec)::<T>::(new|with_capacity)$")
+def m_list_new(sim, st, c):
+    return mk_list((), c["ret_ty"])
+
+
+@pattern(r"^std::(collections::VecDeque|vec::Vec)::<T, A>::(push_back|push)$")
+def m_list_push_back(sim, st, c):
+    p = sim.deref_value(st, c["args"][0])
+    l = list_at(sim, st, p)
+    sim.write(st, p, mk_list(l.data[0] + (c["args"][1],), l.ty))
+    return UNIT
+
+
+@model("std::collections::VecDeque::<T, A>::push_front")
+def m_list_push_front(sim, st, c):
+    p = sim.deref_value(st, c["args"][0])
+    l = list_at(sim, st, p)
+    sim.write(st, p, mk_list((c["args"][1],) + l.data[0], l.ty))
+    return UNIT
+
+
+@model("std::collections::VecDeque::<T, A>::pop_front")
+def m_list_pop_front(sim, st, c):
+    p = sim.deref_value(st, c["args"][0])
+    l = list_at(sim, st, p)
+    if not l.data[0]:
+        return sim.mk_enum(c["ret_ty"], "None")
+    sim.write(st, p, mk_list(l.data[0][1:], l.ty))
+    return sim.mk_enum(c["ret_ty"], "Some", [l.data[0][0]])
+
+
+@pattern(r"^std::(collections::VecDeque|vec::Vec)::<T, A>::(pop_back|pop)$")
+def m_list_pop_back(sim, st, c):
+    p = sim.deref_value(st, c["args"][0])
+    l = list_at(sim, st, p)
+    if not l.data[0]:
+        return sim.mk_enum(c["ret_ty"], "None")
+    sim.write(st, p, mk_list(l.data[0][:-1], l.ty))
+    return sim.mk_enum(c["ret_ty"], "Some", [l.data[0][-1]])
+
+
+@pattern(r"^std::(collections::VecDeque|vec::Vec)::<T, A>::len$")
+def m_list_len(sim, st, c):
+    l = list_at(sim, st, sim.deref_value(st, c["args"][0]))
+    return Const(len(l.data[0]), prim("usize"))
+
+
+@pattern(r"^std::(collections::VecDeque|vec::Vec)::<T, A>::is_empty$")
+def m_list_is_empty(sim, st, c):
+    l = list_at(sim, st, sim.deref_value(st, c["args"][0]))
+    return Const(len(l.data[0]) == 0, prim("bool"))
+
+
+@pattern(r"^std::(collections::VecDeque|vec::Vec)::<T, A>::clear$")
+def m_list_clear(sim, st, c):
+    p = sim.deref_value(st, c["args"][0])
+    l = list_at(sim, st, p)
+    sim.write(st, p, mk_list((), l.ty))
+    return UNIT
+
+
+@pattern(r"^<std::(collections::VecDeque<T, A> as std::ops::Index<usize>|vec::Vec<T, A> as std::ops::Index<I>)>::index$")
+def m_list_index(sim, st, c):
+    p = sim.deref_value(st, c["args"][0])
+    l = list_at(sim, st, p)
+    i = sim.resolve(st, c["args"][1])
+    if not isinstance(i, Const):
+        raise S.Unsupported("symbolic list index")
+    if not (0 <= i.val < len(l.data[0])):
+        raise S.SimPanic("index-oob", "index %d out of bounds of a collection of length %d" % (i.val, len(l.data[0])), c["span"])
+    return Ref(p.ext(("i", i.val)))
+
+
+@pattern(r"^<std::(collections::VecDeque<T, A> as std::ops::IndexMut<usize>|vec::Vec<T, A> as std::ops::IndexMut<I>)>::index_mut$")
+def m_list_index_mut(sim, st, c):
+    r = m_list_index(sim, st, c)
+    return Ref(r.ptr, True)
+
+
+@pattern(r"^<&'a (mut )?std::(collections::VecDeque|vec::Vec)<T, A> as std::iter::IntoIterator>::into_iter$")
+def m_list_into_iter(sim, st, c):
+    r = sim.resolve(st, c["args"][0])
+    l = list_at(sim, st, r.ptr)
+    return Opaque("SliceIter", (r.ptr, 0, len(l.data[0]), r.mut))
+
+
+@pattern(r"^<std::collections::vec_deque::Iter(Mut)?<'a, T> as std::iter::Iterator>::next$")
+def m_deque_iter_next(sim, st, c):
+    return m_slice_iter_next(sim, st, c)
+
+
+@pattern(r"^<std::(vec::Vec|collections::VecDeque)<T, A> as std::clone::Clone>::clone$")
+def m_list_clone(sim, st, c):
+    return deref_arg(sim, st, c["args"][0])
+
+
+@pattern(r"^<std::collections::VecDeque<T, A> as std::convert::From<std::vec::Vec<T, A>>>::from$")
+def m_deque_from_vec(sim, st, c):
+    return c["args"][0]
+
+
+@pattern(r"^std::(collections::VecDeque|vec::Vec)::<T, A>::(front|first)$")
+def m_list_front(sim, st, c):
+    p = sim.deref_value(st, c["args"][0])
+    l = list_at(sim, st, p)
+    if not l.data[0]:
+        return sim.mk_enum(c["ret_ty"], "None")
+    return sim.mk_enum(c["ret_ty"], "Some", [Ref(p.ext(("i", 0)))])
+
+
+@pattern(r"^std::(collections::VecDeque|vec::Vec)::<T, A>::(back|last)$")
+def m_list_back(sim, st, c):
+    p = sim.deref_value(st, c["args"][0])
+    l = list_at(sim, st, p)
+    if not l.data[0]:
+        return sim.mk_enum(c["ret_ty"], "None")
+    return sim.mk_enum(c["ret_ty"], "Some", [Ref(p.ext(("i", len(l.data[0]) - 1)))])
